@@ -701,6 +701,9 @@ def _movable_value(e):
         return all(_movable_value(x) for x in e.elts)
     if isinstance(e, ast.Dict):
         return all(k is not None and isinstance(k, ast.Constant) for k in e.keys) and all(_movable_value(x) for x in e.values)
+    if isinstance(e, ast.Call) and isinstance(e.func, ast.Name) and e.func.id in ("OrderedDict", "dict", "list", "set", "deque") \
+            and not e.args and not e.keywords:
+        return True         # a new empty container
     return False
 
 
@@ -801,13 +804,20 @@ def _inline_accessors(fn):
 _PURE_BUILTINS = {"isinstance", "len", "callable", "hasattr", "type", "issubclass", "id", "abs", "bool", "int", "float", "str", "repr"}
 
 
+_LENIENT = [False]
+_NON_WRITING = {"thub", "iteritems", "itervalues", "iterkeys", "tuple", "list", "sorted", "reversed", "enumerate", "zip",
+                "xzip", "range", "xrange", "min", "max", "sum", "OrderedDict", "dict", "set", "frozenset"}
+
+
 def _clean_expr(e):
-    """evaluating it cannot store into an attribute or an item: only whitelisted builtins are called"""
+    """evaluating it cannot store into an attribute or an item: only whitelisted builtins are called.  Views
+    (``_LENIENT``): also constructors of fresh containers, ``thub`` and eager comprehensions of such."""
+    ok_calls = _PURE_BUILTINS | _NON_WRITING if _LENIENT[0] else _PURE_BUILTINS
+    lazy = (ast.GeneratorExp,) if _LENIENT[0] else (ast.GeneratorExp, ast.ListComp, ast.SetComp, ast.DictComp)
     for n in ast.walk(e):
-        if isinstance(n, ast.Call) and not (isinstance(n.func, ast.Name) and n.func.id in _PURE_BUILTINS):
+        if isinstance(n, ast.Call) and not (isinstance(n.func, ast.Name) and n.func.id in ok_calls):
             return False
-        if isinstance(n, (ast.Yield, ast.YieldFrom, ast.Await, ast.NamedExpr, ast.Lambda, ast.GeneratorExp, ast.ListComp,
-                          ast.SetComp, ast.DictComp)):
+        if isinstance(n, (ast.Yield, ast.YieldFrom, ast.Await, ast.NamedExpr, ast.Lambda) + lazy):
             return False
     return True
 
@@ -854,8 +864,8 @@ def _inline_read_aliases(fn, strict=False):
     def read_chain(e):
         if isinstance(e, ast.Call) and isinstance(e.func, ast.Name) and e.func.id == "len" and len(e.args) == 1 and not e.keywords:
             e = e.args[0]            # the size of a container that nothing on the way writes to
-            if isinstance(e, ast.Name):
-                return False
+            if isinstance(e, ast.Name) and not _LENIENT[0]:
+                return False         # canonical forms keep (and introduce, see _len_once) the temporary
         while isinstance(e, (ast.Attribute, ast.Subscript)):
             if isinstance(e, ast.Subscript) and not isinstance(e.slice, ast.Constant):
                 return False
@@ -868,6 +878,15 @@ def _inline_read_aliases(fn, strict=False):
     params = _scope_params(fn)
     body = fn.body
     changed = False
+    _LENIENT[0] = not strict
+    try:
+        return _inline_read_aliases_1(fn, strict, read_chain, stored, params, body)
+    finally:
+        _LENIENT[0] = False
+
+
+def _inline_read_aliases_1(fn, strict, read_chain, stored, params, body):
+    changed = False
     i = 0
     while i < len(body):
         st = body[i]
@@ -878,10 +897,13 @@ def _inline_read_aliases(fn, strict=False):
             while isinstance(root, (ast.Attribute, ast.Subscript)):
                 root = root.value
             root_ok = (root.id in params or root.id == "self") and stored.get(root.id, 0) == 0
-            if not root_ok and stored.get(root.id, 0) == 1 and root.id not in params and root.id not in _captured_names(fn):
-                # a local bound once, at this level, before the read
-                root_ok = any(isinstance(s_, ast.Assign) and len(s_.targets) == 1 and isinstance(s_.targets[0], ast.Name)
-                              and s_.targets[0].id == root.id for s_ in body[:i])
+            if not root_ok and stored.get(root.id, 0) >= 1 and root.id not in _captured_names(fn):
+                # a local whose every binding comes before the read (at this level or in the arms of an ``if``)
+                before = sum(1 for s_ in body[:i] for n_ in ast.walk(s_) if isinstance(n_, ast.Name) and n_.id == root.id
+                             and isinstance(n_.ctx, (ast.Store, ast.Del)))
+                root_ok = before == stored.get(root.id, 0) and not any(
+                    isinstance(s_, (ast.For, ast.While)) for s_ in body[:i] if any(
+                        isinstance(n_, ast.Name) and n_.id == root.id and isinstance(n_.ctx, ast.Store) for n_ in ast.walk(s_)))
             if stored.get(v, 0) == 1 and v not in params and v not in _captured_names(fn) and root_ok \
                     and not any(_count_loads(s_, v) for s_ in body[:i]):
                 total = _count_loads(fn, v)
@@ -908,8 +930,8 @@ def _inline_read_aliases(fn, strict=False):
                                 continue
                             if isinstance(s_, (ast.Assign, ast.Return, ast.Expr, ast.Raise)) and not isinstance(s_, ast.If):
                                 # the use is evaluated before whatever the statement itself writes, if nothing effectful
-                                # comes first in it
-                                if all(_loaded_first_occurrence(s_, v)):
+                                # comes first in it (or nothing in it writes at all)
+                                if all(_loaded_first_occurrence(s_, v)) or (not strict and _clean_stmt(s_)):
                                     n0 = _count_loads(s_, v)
                                     block[k] = _Subst({v: st.value}).visit(s_)
                                     replaced += n0
@@ -1003,6 +1025,52 @@ def _loops_to_comprehensions(fn):
     return did
 
 
+def _reuse_param_names(fn):
+    """``L = P`` in one arm and ``L = f(P)`` in the other (or the conditional-expression form), P a parameter that is
+    never read or written afterwards and L bound nowhere else: L *is* the converted parameter - the view calls it P
+    again (``if not isinstance(other, Poly): other = Poly(other)``)"""
+    params = _scope_params(fn)
+    changed = False
+    body = fn.body
+    for i, st in enumerate(body):
+        L = P = None
+        if isinstance(st, ast.If) and len(st.body) == 1 and len(st.orelse) == 1 \
+                and all(isinstance(a, ast.Assign) and len(a.targets) == 1 and isinstance(a.targets[0], ast.Name)
+                        for a in (st.body[0], st.orelse[0])) and st.body[0].targets[0].id == st.orelse[0].targets[0].id:
+            L = st.body[0].targets[0].id
+            for a in (st.body[0], st.orelse[0]):
+                if isinstance(a.value, ast.Name) and a.value.id in params:
+                    P = a.value.id
+        elif isinstance(st, ast.Assign) and len(st.targets) == 1 and isinstance(st.targets[0], ast.Name) \
+                and isinstance(st.value, ast.IfExp):
+            L = st.targets[0].id
+            for a in (st.value.body, st.value.orelse):
+                if isinstance(a, ast.Name) and a.id in params:
+                    P = a.id
+        if L is None or P is None or L in params or L == P:
+            continue
+        stores_L = sum(1 for n in ast.walk(fn) if isinstance(n, ast.Name) and n.id == L and isinstance(n.ctx, (ast.Store, ast.Del)))
+        here_L = sum(1 for n in ast.walk(st) if isinstance(n, ast.Name) and n.id == L and isinstance(n.ctx, (ast.Store, ast.Del)))
+        if stores_L != here_L or any(_count_loads(s_, L) for s_ in body[:i]):
+            continue
+        if any(isinstance(n, ast.Name) and n.id == P for s_ in body[i + 1:] for n in ast.walk(s_)):
+            continue
+        if any(isinstance(n, (ast.Global, ast.Nonlocal)) for n in ast.walk(fn)):
+            continue
+        for s_ in body[i:]:
+            for n in ast.walk(s_):
+                if isinstance(n, ast.Name) and n.id == L:
+                    n.id = P
+        if isinstance(st, ast.If):
+            selfish = lambda a: isinstance(a.value, ast.Name) and a.value.id == P
+            if selfish(st.body[0]):
+                body[i] = ast.If(test=_neg_test(st.test), body=st.orelse, orelse=[], lineno=st.lineno, col_offset=0)
+            elif selfish(st.orelse[0]):
+                st.orelse = []
+        changed = True
+    return changed
+
+
 def simplify_views(tree, ref_tree):
     """Functions that are neither identical to nor proved equivalent with their confirmed namesake are still read by
     the rules as they stand.  Two rewrites that cannot change behaviour make them easier to read: flags computed once
@@ -1018,7 +1086,7 @@ def simplify_views(tree, ref_tree):
         for _ in range(4):
             c1 = _propagate_pure(node, only_flags=True)
             c2 = _inline_accessors(node)
-            c3 = _inline_read_aliases(node)
+            c3 = _inline_read_aliases(node) or _reuse_param_names(node)
             # a list built by an append loop where the confirmed function builds its lists by comprehensions only
             c4 = (not _append_loops(r)) and any(isinstance(n, ast.ListComp) for n in ast.walk(r)) and _loops_to_comprehensions(node)
             if not (c1 or c2 or c3 or c4):
@@ -1250,6 +1318,40 @@ def _norm_simple(stmts, ctx):
                     changed = True
                     i += 1
                     continue
+            # for A, B in product(X, Y): BODY   ->   for A in X: for B in Y: BODY      (X, Y lists built in this function
+            # that BODY does not touch; no ``break``: it would only leave the inner loop)
+            if isinstance(st, ast.For) and not st.orelse and isinstance(st.target, ast.Tuple) and len(st.target.elts) == 2 \
+                    and isinstance(st.iter, ast.Call) and ast.unparse(st.iter.func) in ("product", "it.product", "itertools.product") \
+                    and len(st.iter.args) == 2 and not st.iter.keywords \
+                    and all(isinstance(a, ast.Name) for a in st.iter.args) and ctx.get("root") is not None:
+                def list_local(nm):
+                    binds = [n for n in ast.walk(ctx["root"]) if isinstance(n, ast.Assign) and any(
+                        isinstance(t, ast.Name) and t.id == nm for t in n.targets)]
+                    stores = sum(1 for n in ast.walk(ctx["root"]) if isinstance(n, ast.Name) and n.id == nm
+                                 and isinstance(n.ctx, (ast.Store, ast.Del)))
+                    return len(binds) == 1 and stores == 1 and isinstance(binds[0].value, (ast.ListComp, ast.List))
+                xs, ys = st.iter.args
+                body_names = {n.id for b_ in st.body for n in ast.walk(b_) if isinstance(n, ast.Name)}
+
+                def own_break(stmts_):
+                    for b_ in stmts_:
+                        if isinstance(b_, ast.Break):
+                            return True
+                        if isinstance(b_, (ast.For, ast.While) + FuncTypes):
+                            continue
+                        for fld_ in ("body", "orelse", "finalbody"):
+                            if own_break(getattr(b_, fld_, []) or []):
+                                return True
+                        for h_ in getattr(b_, "handlers", []) or []:
+                            if own_break(h_.body):
+                                return True
+                    return False
+                if list_local(xs.id) and list_local(ys.id) and xs.id not in body_names and ys.id not in body_names \
+                        and not own_break(st.body):
+                    inner = ast.For(target=st.target.elts[1], iter=ys, body=st.body, orelse=[], lineno=st.lineno, col_offset=0)
+                    st = ast.For(target=st.target.elts[0], iter=xs, body=[inner], orelse=[], lineno=st.lineno, col_offset=0)
+                    stmts[i] = st
+                    changed = True
             # for x in map(f, S): BODY   ->   for x in S: x = f(x); BODY        (lazy map: same interleaving)
             if isinstance(st, ast.For) and isinstance(st.target, ast.Name) and isinstance(st.iter, ast.Call) \
                     and isinstance(st.iter.func, ast.Name) and st.iter.func.id in ("map", "xmap") and len(st.iter.args) == 2 \
@@ -1557,6 +1659,37 @@ def _norm_simple(stmts, ctx):
                     changed = True
                     i += 1
                     continue
+                # x = <total, effect-free value> ; S      (S neither reads nor writes x nor writes what the value reads):
+                # the binding goes after S - as late as possible, next to its first use
+                if uses_next == 0 and not stores_next and _movable_value(st.value) \
+                        and not isinstance(st.value, (ast.Name, ast.Constant)) \
+                        and not isinstance(nxt, FuncTypes + (ast.ClassDef, ast.Return, ast.Raise, ast.Break, ast.Continue)) \
+                        and not _always_leaves([nxt]) \
+                        and any(_count_loads(s_, v) for s_ in later) \
+                        and not ({n.id for n in _names(st.value, ast.Load)} & _stored_names(nxt)) \
+                        and v not in {n.id for n in ast.walk(nxt) if isinstance(n, ast.Name)}:
+                    out.append(nxt)
+                    stmts[i + 1] = st
+                    changed = True
+                    i += 1
+                    continue
+                # x = <total, effect-free value> ; if c: A else: B      (c does not read x, nothing after the ``if`` does,
+                # nothing else in the function does): the binding belongs to the arms that read x
+                if isinstance(nxt, ast.If) and uses_next >= 1 and not stores_next and _count_loads(nxt.test, v) == 0 \
+                        and _movable_value(st.value) and not isinstance(st.value, (ast.Name, ast.Constant)) \
+                        and not any(_count_loads(s_, v) for s_ in later) and ctx.get("root") is not None \
+                        and sum(1 for n in ast.walk(ctx["root"]) if isinstance(n, ast.Name) and n.id == v
+                                and isinstance(n.ctx, ast.Load)) == uses_next \
+                        and not ({n.id for n in _names(st.value, ast.Load)} & _stored_names(nxt)):
+                    mk = lambda: ast.Assign(targets=[ast.Name(id=v, ctx=ast.Store())], value=_copy_expr(st.value),
+                                            lineno=st.lineno, col_offset=0)
+                    if any(_count_loads(s_, v) for s_ in nxt.body):
+                        nxt.body = [mk()] + list(nxt.body)
+                    if any(_count_loads(s_, v) for s_ in nxt.orelse):
+                        nxt.orelse = [mk()] + list(nxt.orelse)
+                    changed = True
+                    i += 1
+                    continue
                 # one use in each arm of a conditional expression with a total test: same thing, as an expression
                 if not any(_count_loads(s_, v) for s_ in later) and uses_next == 2 and not stores_next \
                         and not isinstance(nxt, (ast.For, ast.While, ast.If, ast.Try, ast.With) + FuncTypes) \
@@ -1780,6 +1913,43 @@ def _is_neg(t):
     return isinstance(t, ast.UnaryOp) and isinstance(t.op, ast.Not)
 
 
+def _len_once(st):
+    """``if len(x) == 1: .. elif len(x) == 0: ..`` (a chain of tests of the size of one plain name against literals):
+    the size is taken once, before the chain.  Returns the new binding (tests rewritten in place) or None."""
+    def size_test(t):
+        if isinstance(t, ast.UnaryOp) and isinstance(t.op, ast.Not):
+            return size_test(t.operand)
+        if isinstance(t, ast.Compare) and len(t.ops) == 1 and isinstance(t.left, ast.Call) and isinstance(t.left.func, ast.Name) \
+                and t.left.func.id == "len" and len(t.left.args) == 1 and not t.left.keywords \
+                and isinstance(t.left.args[0], ast.Name) and isinstance(t.comparators[0], ast.Constant) \
+                and type(t.comparators[0].value) is int:
+            return t.left.args[0].id
+        return None
+    x = size_test(st.test)
+    if x is None:
+        return None
+    chain = [st]
+    cur = st
+    while len(cur.orelse) == 1 and isinstance(cur.orelse[0], ast.If) and size_test(cur.orelse[0].test) == x:
+        cur = cur.orelse[0]
+        chain.append(cur)
+    if len(chain) < 2:
+        return None
+    tmp = "len__%s" % x
+
+    class R(ast.NodeTransformer):
+        def visit_Call(self, node):
+            if isinstance(node.func, ast.Name) and node.func.id == "len" and len(node.args) == 1 \
+                    and isinstance(node.args[0], ast.Name) and node.args[0].id == x:
+                return ast.Name(id=tmp, ctx=ast.Load())
+            return node
+    for c in chain:
+        c.test = R().visit(c.test)
+    return ast.Assign(targets=[ast.Name(id=tmp, ctx=ast.Store())], value=ast.Call(
+        func=ast.Name(id="len", ctx=ast.Load()), args=[ast.Name(id=x, ctx=ast.Load())], keywords=[]),
+        lineno=st.lineno, col_offset=0)
+
+
 def _breaks_to_returns(stmts):
     """``break`` of the enclosing loop (not of a nested one) -> ``return``"""
     out = []
@@ -1973,6 +2143,10 @@ def _norm_region(stmts, kind, ctx):
                 if isinstance(t, ast.Name):
                     defined.add(t.id)
         if isinstance(st, ast.If):
+            pre = _len_once(st)
+            if pre is not None:
+                res.append(pre)
+                defined.add(pre.targets[0].id)
             st.body = _norm_region(st.body, k, ctx)
             st.orelse = _norm_region(st.orelse, k, ctx)
             if _is_neg(st.test) and st.orelse and st.body:
@@ -2047,6 +2221,12 @@ def _total_atom(t):
     if isinstance(t, ast.Call) and isinstance(t.func, ast.Name) and t.func.id in ("isinstance", "callable") \
             and all(_simple_arg(a) or (isinstance(a, ast.Tuple) and all(_simple_arg(e) for e in a.elts)) for a in t.args):
         return True
+    root = _CTX.get("dt_root")
+    if root is not None and isinstance(t, ast.Compare) and len(t.ops) == 1 \
+            and isinstance(t.ops[0], (ast.Eq, ast.NotEq, ast.Lt, ast.LtE, ast.Gt, ast.GtE)) \
+            and all(isinstance(x, (ast.Name, ast.Constant)) for x in (t.left, t.comparators[0])) \
+            and _int_typed(t.left, root) and _int_typed(t.comparators[0], root):
+        return True         # comparison of two ints
     return False
 
 
@@ -2124,6 +2304,26 @@ def _decision_table(stmts, hier=None):
     walk([root], [])
     if len(rows) < 3:
         return stmts
+    # x == k (x a plain name, k an int literal; total atoms only): one of them true makes the others false
+    import re as _re
+    eq_pat = _re.compile(r"^Compare\(left=(?:Constant\(value=(-?\d+)\)|Name\(id='(\w+)', ctx=Load\(\)\)), ops=\[Eq\(\)\], "
+                         r"comparators=\[(?:Constant\(value=(-?\d+)\)|Name\(id='(\w+)', ctx=Load\(\)\))\]\)$")
+
+    def eq_atom(a):
+        m = eq_pat.match(a) if isinstance(a, str) else None
+        if not m:
+            return None
+        k = m.group(1) if m.group(1) is not None else m.group(3)
+        v = m.group(2) if m.group(2) is not None else m.group(4)
+        if k is None or v is None:
+            return None
+        return v, int(k)
+    eq_universe = {}
+    for lits, _b in rows:
+        for a, pol, total in lits:
+            e_ = eq_atom(a) if total else None
+            if e_ is not None:
+                eq_universe.setdefault(e_[0], {})[e_[1]] = a
     table = []
     for lits, block in rows:
         seen = {}
@@ -2152,6 +2352,22 @@ def _decision_table(stmts, hier=None):
                     for sub, sups in hier.items():
                         if cls in sups:
                             extra.append((_isinstance_dump(var, sub), False, True))
+            for a, pol, total in extra:
+                if a in seen:
+                    if seen[a] != pol:
+                        dead = True
+                        break
+                    continue
+                seen[a] = pol
+                order.append((a, pol, total))
+        if not dead and eq_universe:
+            extra = []
+            for a, pol, total in order:
+                e_ = eq_atom(a) if (total and pol) else None
+                if e_ is not None:
+                    for k_, a2 in eq_universe.get(e_[0], {}).items():
+                        if k_ != e_[1]:
+                            extra.append((a2, False, True))
             for a, pol, total in extra:
                 if a in seen:
                     if seen[a] != pol:
@@ -2949,7 +3165,11 @@ def canonical_ast(fn, helpers, methods=None, hier=None, segment=False):
     ast.fix_missing_locations(f)
     f.body = _norm_region(f.body, None if segment else "func", {"root": f, "defined": params, "final": True,
                                            "bound": frozenset(_bound(f)) | params})
-    f.body = _dt_pass(f.body, hier or {})
+    _CTX["dt_root"] = f
+    try:
+        f.body = _dt_pass(f.body, hier or {})
+    finally:
+        _CTX["dt_root"] = None
     return f
 
 
